@@ -6,6 +6,7 @@ import (
 	"encoding/binary"
 	"encoding/json"
 	"fmt"
+	"io"
 	"math"
 	"os"
 	"os/exec"
@@ -53,9 +54,16 @@ func xchild(c *ev.Ctx, r *ev.Report) bool {
 		return false
 	}
 	s := xsuites[name]
-	out, err := os.Create(os.Getenv("VERIF_SUITE_OUT"))
-	if err != nil {
-		panic(err)
+	var out *os.File
+	if p := os.Getenv("VERIF_SUITE_OUT"); strings.HasPrefix(p, "fd:") {
+		var fd int
+		fmt.Sscan(p[3:], &fd)
+		out = os.NewFile(uintptr(fd), "suite-digests")
+	} else {
+		var err error
+		if out, err = os.Create(p); err != nil {
+			panic(err)
+		}
 	}
 	w := bufio.NewWriterSize(out, 1<<20)
 	// regeneration mode: VERIF_SUITE_PICKS = comma separated sorted case indices whose full
@@ -153,28 +161,107 @@ func runSuiteChild(c *ev.Ctx, check, suite string, cfg xcfgSpec, picks string, o
 	return nil
 }
 
-// xcompare runs `suite` under every configuration and compares the digest streams.
+// startSuiteChild starts the suite under one configuration; the child streams its digests
+// into a pipe (nothing is stored: a thorough suite is ~10^8 cases per worker).
+type xstream struct {
+	cmd  *exec.Cmd
+	pr   *os.File
+	rd   *bufio.Reader
+	tail *bytes.Buffer
+}
+
+func startSuiteChild(c *ev.Ctx, check, suite string, cfg xcfgSpec) (*xstream, error) {
+	self, _ := os.Executable()
+	pr, pw, err := os.Pipe()
+	if err != nil {
+		return nil, err
+	}
+	cmd := exec.Command(self, check, c.Tier)
+	cmd.Env = append(os.Environ(), cfg.env...)
+	cmd.Env = append(cmd.Env,
+		fmt.Sprintf("VERIF_WORKER=%d/%d", c.Shard, c.NShard), fmt.Sprintf("VERIF_SEED=%d", c.Seed), "VERIF_TIER="+c.Tier,
+		fmt.Sprintf("VERIF_DEADLINE_S=%d", int(time.Until(c.Deadline).Seconds())+1),
+		"VERIF_SUITE="+suite, "VERIF_SUITE_OUT=fd:4", "VERIF_SUITE_PICKS=")
+	devnull, _ := os.OpenFile(os.DevNull, os.O_WRONLY, 0)
+	defer devnull.Close()
+	cmd.ExtraFiles = []*os.File{devnull, pw}
+	tail := &bytes.Buffer{}
+	cmd.Stdout = tail
+	cmd.Stderr = tail
+	err = cmd.Start()
+	pw.Close()
+	if err != nil {
+		pr.Close()
+		return nil, err
+	}
+	return &xstream{cmd, pr, bufio.NewReaderSize(pr, 1<<20), tail}, nil
+}
+
+// xcompare runs `suite` under every configuration at the same time and compares the digest
+// streams in lockstep.
 func xcompare(c *ev.Ctx, r *ev.Report, prop, suite string, cfgs []xcfgSpec, keyOf func(id, a, b string) string) {
 	dir := filepath.Join(ev.Root, ".build", "run")
 	os.MkdirAll(dir, 0o755)
-	paths := make([]string, len(cfgs))
+	const maxRegen = 40000
+	st := make([]*xstream, len(cfgs))
 	errs := make([]error, len(cfgs))
-	done := make(chan int, len(cfgs))
 	for i := range cfgs {
-		paths[i] = filepath.Join(dir, fmt.Sprintf("%s-%s-%d-%d.dig", prop, suite, c.Shard, i))
-		go func(i int) {
-			errs[i] = runSuiteChild(c, prop, suite, cfgs[i], "", paths[i])
-			done <- i
-		}(i)
-		if len(cfgs) > 2 {
-			<-done // more than two configurations: one at a time to keep the machine at ~2 procs/worker
-			done <- i
+		st[i], errs[i] = startSuiteChild(c, prop, suite, cfgs[i])
+	}
+	idxs := make([][]string, len(cfgs))
+	mismOf := make([]int, len(cfgs))
+	distinct := ev.NewHashSet(27)
+	n := 0
+	started := true
+	for i := range cfgs {
+		if st[i] == nil {
+			started = false
 		}
 	}
-	for range cfgs {
-		<-done
+	if started {
+		var buf [8]byte
+	lockstep:
+		for {
+			var a uint64
+			for i := range cfgs {
+				if _, err := io.ReadFull(st[i].rd, buf[:]); err != nil {
+					if i > 0 {
+						r.Exhaustive = false // a deadline cut one of them; the common prefix was compared
+					} else {
+						// stream 0 ended: the others must end here too
+						for j := 1; j < len(cfgs); j++ {
+							if _, e := io.ReadFull(st[j].rd, buf[:]); e == nil {
+								r.Exhaustive = false
+							}
+						}
+					}
+					break lockstep
+				}
+				v := binary.LittleEndian.Uint64(buf[:])
+				if i == 0 {
+					a = v
+					distinct.Add(a)
+				} else if v != a {
+					mismOf[i]++
+					if len(idxs[i]) < maxRegen {
+						idxs[i] = append(idxs[i], fmt.Sprint(n))
+					}
+				}
+			}
+			n++
+		}
 	}
-	var data [][]byte
+	// let every child finish (drain what it still writes), then collect its fate
+	for i := range cfgs {
+		if st[i] == nil {
+			continue
+		}
+		io.Copy(io.Discard, st[i].rd)
+		if err := st[i].cmd.Wait(); err != nil {
+			errs[i] = fmt.Errorf("%v: %s", err, lastN(st[i].tail.String(), 600))
+		}
+		st[i].pr.Close()
+	}
 	for i := range cfgs {
 		if errs[i] != nil && strings.Contains(errs[i].Error(), "signal: killed") {
 			// SIGKILL comes from outside the process (the kernel's OOM killer, an operator),
@@ -188,45 +275,20 @@ func xcompare(c *ev.Ctx, r *ev.Report, prop, suite string, cfgs []xcfgSpec, keyO
 				Case: ev.J(map[string]string{"suite": suite, "cfg": cfgs[i].name}), Expected: "suite completes", Observed: errs[i].Error()})
 			return
 		}
-		b, _ := os.ReadFile(paths[i])
-		data = append(data, b)
-		os.Remove(paths[i])
-	}
-	n := len(data[0]) / 8
-	for i := 1; i < len(data); i++ {
-		if len(data[i])/8 < n {
-			n = len(data[i]) / 8
-		}
-		if len(data[i]) != len(data[0]) {
-			r.Exhaustive = false // a deadline cut one of them; compare the common prefix
-		}
 	}
 	r.Evaluations += int64(n * len(cfgs))
 	r.Count("cases_"+suite, int64(n))
-	distinct := map[uint64]struct{}{}
 	mism := 0
-	const maxRegen = 40000
-	for i := 1; i < len(data); i++ {
-		var idx []string
-		for k := 0; k < n; k++ {
-			a := binary.LittleEndian.Uint64(data[0][8*k:])
-			if i == 1 {
-				distinct[a] = struct{}{}
-			}
-			if binary.LittleEndian.Uint64(data[i][8*k:]) != a {
-				mism++
-				if len(idx) < maxRegen {
-					idx = append(idx, fmt.Sprint(k))
-				}
-			}
-		}
+	for i := 1; i < len(cfgs); i++ {
+		idx := idxs[i]
+		mism += mismOf[i]
 		if len(idx) == 0 {
 			continue
 		}
-		if mism > maxRegen {
-			r.Notes = append(r.Notes, fmt.Sprintf("suite %s vs %s: %d mismatching cases, only the first %d were regenerated and classified", suite, cfgs[i].name, mism, maxRegen))
+		if mismOf[i] > maxRegen {
+			r.Notes = append(r.Notes, fmt.Sprintf("suite %s vs %s: %d mismatching cases, only the first %d were regenerated and classified", suite, cfgs[i].name, mismOf[i], maxRegen))
 			r.Violate(ev.Violation{Property: prop, Key: cfgs[i].name + ":more-mismatches-than-can-be-classified:" + suite, What: "too many mismatching cases to classify all of them",
-				Case: ev.J(map[string]string{"suite": suite, "cfg": cfgs[i].name}), Expected: "<= 40000 mismatches per shard", Observed: fmt.Sprint(mism)})
+				Case: ev.J(map[string]string{"suite": suite, "cfg": cfgs[i].name}), Expected: "<= 40000 mismatches per shard", Observed: fmt.Sprint(mismOf[i])})
 		}
 		// regenerate all mismatching cases in one pass per configuration
 		pa := filepath.Join(dir, fmt.Sprintf("%s-%s-%d-pickA.jsonl", prop, suite, c.Shard))
@@ -261,7 +323,7 @@ func xcompare(c *ev.Ctx, r *ev.Report, prop, suite string, cfgs []xcfgSpec, keyO
 				Expected: cfgs[0].name + ": " + clipS(A[k]["obs"], 300), Observed: cfgs[i].name + ": " + clipS(B[k]["obs"], 300)})
 		}
 	}
-	r.Distinct += int64(len(distinct))
+	r.Distinct += distinct.Len()
 	r.Count("mismatching_cases_"+suite, int64(mism))
 }
 
